@@ -705,3 +705,75 @@ def exception_bases(src) -> dict:
     for c in [root] + list(src.subclasses(root)):
         out[c.name] = {getattr(b, 'name', str(b)).split('.')[-1] for b in src.mro(c)[1:]}
     return out
+
+
+# ---------------------------------------------------------------------------------------------------
+# mechanisms several properties rest on: each property that states something about values borrows the rules of the mechanisms
+# its statement goes through, so that a change there is reported by every property it breaks
+def shared_mechanisms(run: Run, prop: str, first: int, which: list):
+    """borrows the named mechanisms as rules <prop>.R<first>, R<first+1>, ..."""
+    from ..source import get_source
+    from ..grammar import get_grammar
+    from ..emission import get_emission
+    from ..runtime import get_runtime
+    from ..callgraph import get_callgraph
+    src = get_source()
+    g = get_grammar(src)
+    n = first
+    for name in which:
+        rule = f'{prop}.R{n}'
+        n += 1
+        if name == 'stored-values':
+            from . import c18
+            run.rule(rule, 'the value a formula reads from a cell is the value stored in the workbook (shared with C18.R1/R3)')
+            borrow(run, rule, c18.r1_any, src)
+            run.floor(rule, 3)
+        elif name == 'addresses':
+            from . import c02
+            run.rule(rule, 'a reference denotes the cells its text spells, beyond column Z and on other sheets too (shared with C02.R1)')
+            borrow(run, rule, c02.r1_any, src, g)
+            run.floor(rule, 20)
+        elif name == 'areas':
+            from . import c02
+            run.rule(rule, 'an area consists of every cell between its corners, whole columns of every row of the sheet (shared with C02.R2)')
+            borrow(run, rule, c02.r2, src)
+            run.floor(rule, 8)
+        elif name == 'references-minted':
+            from . import c03
+            run.rule(rule, 'every reference is translated through the cell translator for a registered member (shared with C03.R1/R2)')
+            borrow(run, rule, c03.r1, src, g, get_emission(src), get_callgraph(src))
+            borrow(run, rule, c03.r2, src, get_callgraph(src))
+            run.floor(rule, 10)
+        elif name == 'fresh-parse':
+            from . import c02
+            run.rule(rule, 'a formula is parsed for the cell that holds it (shared with C02.R8)')
+            borrow(run, rule, c02.r8_fresh_parse, src)
+            run.floor(rule, 1)
+        elif name == 'literals':
+            from . import lexer_eval
+            run.rule(rule, 'a number literal denotes the number its text spells (shared with C05.R3)')
+            run.guard(rule, lexer_eval.number_literal_obligations, run, rule, src, g)
+            run.floor(rule, 10)
+        elif name == 'lexer':
+            from . import lexer_eval
+            run.rule(rule, 'the formula is cut into the tokens its text spells: separators, blanks, references (shared with C05.R3)')
+            run.guard(rule, lexer_eval.lexer_obligations, run, rule, src, g)
+            run.floor(rule, 40)
+        elif name == 'overrides':
+            from . import executor_eval
+            run.rule(rule, 'a value supplied as an override reaches the formulas as supplied -- zero, blank, dates and date-times too '
+                           '(shared with C04.R1)')
+            run.guard(rule, executor_eval.evaluate_histories, run, rule, src)
+            run.floor(rule, 40)
+        elif name == 'no-value-specialisation':
+            from . import c04
+            run.rule(rule, 'no translator reads the stored value of a referenced cell into the code (shared with C04.R7)')
+            borrow(run, rule, c04.r7_no_value_specialisation, src, get_emission(src))
+            run.floor(rule, 20)
+        elif name == 'rejections':
+            run.rule(rule, 'a formula that is rejected is rejected: no handler on the translation path turns it into text (shared with C05.R11)')
+            run.guard(rule, check_rejections_propagate, run, rule, src, get_callgraph(src),
+                      ['AstBuilder.parse', 'CompositeBaseToken.get', 'UndefinedToken.get'], 'a formula that does not fit the grammar')
+            run.floor(rule, 50)
+        else:
+            raise AnalysisError('common', f'unknown mechanism {name}')
